@@ -48,6 +48,7 @@ class Job:
         self.bounds = bounds      # free text of the bound of this obligation
         self.expect_fail = list(expect_fail)  # regexes: a failing check matching each must exist (must-panic)
         self.genfile = None       # generated file the harness lives in when it is not gen_<feature>.rs
+        self.concrete = None      # harness whose inputs are fully determined: the Rust expression of its playback values (e.g. "vec![]")
 
 
 class Result:
